@@ -343,11 +343,9 @@ pub trait SemanticString<const CAPACITY: usize>:
         }
 
         if Self::is_invalid_content(temp.as_bytes()) {
-            let mut prefix = StaticString::<123>::new();
-            unsafe { prefix.insert_bytes_unchecked(0, bytes) };
             fail!(from self, with SemanticStringError::InvalidContent,
                 "Unable to strip prefix \"{}\" from string since it would result in the illegal content \"{}\".",
-                prefix, temp);
+                as_escaped_string(bytes), temp);
         }
 
         unsafe { self.get_mut_string().strip_prefix(bytes) };
@@ -365,11 +363,9 @@ pub trait SemanticString<const CAPACITY: usize>:
         }
 
         if Self::is_invalid_content(temp.as_bytes()) {
-            let mut prefix = StaticString::<123>::new();
-            unsafe { prefix.insert_bytes_unchecked(0, bytes) };
             fail!(from self, with SemanticStringError::InvalidContent,
                 "Unable to strip prefix \"{}\" from string since it would result in the illegal content \"{}\".",
-                prefix, temp);
+                as_escaped_string(bytes), temp);
         }
 
         unsafe { self.get_mut_string().strip_suffix(bytes) };
